@@ -425,6 +425,42 @@ pub fn script_of(node: &Node, sid: u64) -> ScriptBuf {
         _ => ScriptBuf::new_p2pkh(&lightning_signer::bitcoin::PubkeyHash::from_byte_array([sid as u8; 20])),
     }
 }
+pub const SIDS: [u64; 12] = [1, 2, 3, 4, 5, 6, 10, 11, 12, 20, 21, 22];
+
+/// script bytes per sid (wallet scripts depend only on the fixed test seed)
+pub fn script_table() -> &'static Vec<(u64, Vec<u8>)> {
+    static T: std::sync::OnceLock<Vec<(u64, Vec<u8>)>> = std::sync::OnceLock::new();
+    T.get_or_init(|| {
+        let node = init_node(TEST_NODE_CONFIG, TEST_SEED[1]);
+        SIDS.iter().map(|s| (*s, script_of(&node, *s).to_bytes())).collect()
+    })
+}
+pub fn script_bytes(sid: u64) -> &'static [u8] {
+    &script_table().iter().find(|(s, _)| *s == sid).unwrap().1
+}
+/// rank of the script's bytes in lexicographic order among the script universe (0 = the empty script)
+pub fn script_rank(sid: u64) -> u64 {
+    if sid == 0 {
+        return 0;
+    }
+    let mut all: Vec<&Vec<u8>> = script_table().iter().map(|(_, b)| b).collect();
+    all.sort();
+    1 + all.iter().position(|b| b.as_slice() == script_bytes(sid)).unwrap() as u64
+}
+/// script bytes -> sid (0 = empty, 99 = not in the universe)
+pub fn sid_of_script(b: &[u8]) -> u64 {
+    if b.is_empty() {
+        return 0;
+    }
+    script_table().iter().find(|(_, x)| x.as_slice() == b).map(|(s, _)| *s).unwrap_or(99)
+}
+/// structured rendering of a one-input transaction, as the Lean driver prints `canonClose`
+pub fn render_tx(tx: &Transaction, funding: &OutPoint) -> String {
+    let outs: Vec<String> = tx.output.iter().map(|o| format!("{}@{}", o.value.to_sat(), sid_of_script(o.script_pubkey.as_bytes()))).collect();
+    let op = if tx.input.len() == 1 && tx.input[0].previous_output == *funding { 1 } else { 2 };
+    format!("tx={}/{}/{}/{}/[{}]", tx.version.0, tx.lock_time.to_consensus_u32(), tx.input[0].sequence.0, op, outs.join(","))
+}
+
 pub fn script_len(sid: u64) -> u64 {
     match sid {
         1..=4 | 10 | 20 => 22,
@@ -1105,7 +1141,7 @@ impl World {
     // C07: mutual close
     // ------------------------------------------------------------------------------------------
     fn op_close2(&mut self, idx: usize, a: &[u64]) -> String {
-        if a.len() != 12 {
+        if a.len() != 14 {
             return "bad-op".into();
         }
         let cw = match &self.chan {
@@ -1114,29 +1150,30 @@ impl World {
         };
         let (node, cid) = (cw.node_ctx.node.clone(), cw.chan_ctx.channel_id.clone());
         let (hv, cv) = (a[0], a[1]);
-        // the op line carries (present, sid, len, canSpend, allowlisted); the path index is implied by
-        // canSpend: the script's own index when spendable, a wrong index (7) or master otherwise
+        // the op line carries (present, sid, len, rank, canSpend, allowlisted) per side; the path index is
+        // implied by canSpend: the script's own index when spendable, a wrong index (7) or master otherwise
         let hs = if a[2] != 0 { Some(script_of(&node, a[3])) } else { None };
-        let cs = if a[7] != 0 { Some(script_of(&node, a[8])) } else { None };
-        let hpath = if a[5] != 0 { path_of(a[3]) } else if idx % 2 == 0 { DerivationPath::master() } else { path_of(7) };
+        let cs = if a[8] != 0 { Some(script_of(&node, a[9])) } else { None };
+        let hpath = if a[6] != 0 { path_of(a[3]) } else if idx % 2 == 0 { DerivationPath::master() } else { path_of(7) };
         let before = self.snapshot();
         let r = catch_unwind(AssertUnwindSafe(|| {
             node.with_channel(&cid, |c| c.sign_mutual_close_tx_phase2(hv, cv, &hs, &cs, &hpath))
         }));
-        let (line, sig) = self.finish(r);
+        let (mut line, sig) = self.finish(r);
         if let Some(sig) = sig {
-            let outs: Vec<(u64, Option<u64>)> = vec![(hv, if a[2] != 0 { Some(a[3]) } else { None }), (cv, if a[7] != 0 { Some(a[8]) } else { None })];
-            self.monitor_close(idx, before, Some((outs[0].clone(), outs[1].clone())), &[], sig);
+            let outs: Vec<(u64, Option<u64>)> = vec![(hv, if a[2] != 0 { Some(a[3]) } else { None }), (cv, if a[8] != 0 { Some(a[9]) } else { None })];
+            let tx = self.monitor_close(idx, before, Some((outs[0].clone(), outs[1].clone())), &[], sig);
+            line = format!("{} {}", line, tx);
         }
         line
     }
 
     fn op_close1(&mut self, idx: usize, a: &[u64]) -> String {
-        if a.len() < 3 {
+        if a.len() < 6 {
             return "bad-op".into();
         }
-        let (npaths, canon, k) = (a[0] as usize, a[1] != 0, a[2] as usize);
-        if a.len() != 3 + 5 * k || k > 4 {
+        let (npaths, ver, lt, seq, op, k) = (a[0] as usize, a[1], a[2], a[3], a[4], a[5] as usize);
+        if a.len() != 6 + 6 * k || k > 4 || ver > i32::MAX as u64 || lt > u32::MAX as u64 || seq > u32::MAX as u64 || npaths > 8 {
             return "bad-op".into();
         }
         let cw = match &self.chan {
@@ -1148,31 +1185,33 @@ impl World {
         let mut outs = Vec::new();
         let mut paths = Vec::new();
         for j in 0..k {
-            let o = &a[3 + 5 * j..8 + 5 * j];
+            let o = &a[6 + 6 * j..12 + 6 * j];
             outs.push((o[0], o[1]));
-            paths.push(if o[3] != 0 { path_of(o[1]) } else if (idx + j) % 2 == 0 { DerivationPath::master() } else { path_of(7) });
+            paths.push(if o[4] != 0 { path_of(o[1]) } else if (idx + j) % 2 == 0 { DerivationPath::master() } else { path_of(7) });
         }
         while paths.len() < npaths {
             paths.push(DerivationPath::master());
         }
         paths.truncate(npaths);
-        // the transaction as the node software would hand it over: outputs in the given order;
-        // `canon = 0` with an otherwise canonical order perturbs the lock time
-        let mut tx = Transaction {
-            version: Version::TWO,
-            lock_time: LockTime::ZERO,
-            input: vec![TxIn { previous_output: funding, script_sig: ScriptBuf::new(), sequence: Sequence::MAX, witness: Witness::new() }],
+        // the transaction exactly as the caller hands it over: header fields and output order as given
+        let tx = Transaction {
+            version: Version(ver as i32),
+            lock_time: LockTime::from_consensus(lt as u32),
+            input: vec![TxIn {
+                previous_output: if op == 1 { funding } else { OutPoint { txid: Txid::from_slice(&[8u8; 32]).unwrap(), vout: 0 } },
+                script_sig: ScriptBuf::new(),
+                sequence: Sequence(seq as u32),
+                witness: Witness::new(),
+            }],
             output: outs.iter().map(|(v, sid)| TxOut { value: Amount::from_sat(*v), script_pubkey: script_of(&node, *sid) }).collect(),
         };
-        if !canon && is_canonical(&tx.output) {
-            tx.lock_time = LockTime::from_consensus(1);
-        }
         let before = self.snapshot();
         let r = catch_unwind(AssertUnwindSafe(|| node.with_channel(&cid, |c| c.sign_mutual_close_tx(&tx, &paths))));
-        let (line, sig) = self.finish(r);
+        let (mut line, sig) = self.finish(r);
         if let Some(sig) = sig {
-            let outs2: Vec<(u64, u64, bool)> = (0..k).map(|j| (a[3 + 5 * j], a[4 + 5 * j], a[6 + 5 * j] != 0)).collect();
-            self.monitor_close(idx, before, None, &outs2, sig);
+            let outs2: Vec<(u64, u64, bool)> = (0..k).map(|j| (a[6 + 6 * j], a[7 + 6 * j], a[10 + 6 * j] != 0)).collect();
+            let txr = self.monitor_close(idx, before, None, &outs2, sig);
+            line = format!("{} {}", line, txr);
         }
         line
     }
@@ -1280,7 +1319,7 @@ impl World {
     }
 
     fn monitor_close(&mut self, idx: usize, snap: Option<((u64, u64, usize), (u64, u64, usize))>,
-        phase2: Option<((u64, Option<u64>), (u64, Option<u64>))>, outs: &[(u64, u64, bool)], sig: secp256k1::ecdsa::Signature) {
+        phase2: Option<((u64, Option<u64>), (u64, Option<u64>))>, outs: &[(u64, u64, bool)], sig: secp256k1::ecdsa::Signature) -> String {
         // candidate assignments: the given one (phase 2) or every reading of the outputs (phase 1)
         let mut cands: Vec<(u64, Option<u64>, bool, u64, Option<u64>)> = Vec::new();
         match phase2 {
@@ -1352,6 +1391,9 @@ impl World {
                 "returned signature does not verify against the canonical closing tx on the funding outpoint".into());
         }
         self.out.tags.insert("close:signed".into());
+        // the structured rendering of the transaction the signature verified against (compared with the
+        // Lean `canonClose` through the correspondence)
+        render_tx(&tx, &funding)
     }
 }
 
